@@ -311,7 +311,7 @@ def stream(ctx):
         if not ok:
             ctx.violation('HARNESS FAULT (not a finding about /repo): c02gen -replay failed: ' + '; '.join(ctx.notes[-1:]), ['# see notes'], found_input=False, name='harness-c02gen')
     else:
-        corp = lib.corpus_lines(ctx.prop)
+        corp = [l for l in lib.corpus_lines(ctx.prop) if l.startswith('x ')]   # c03gen lines of the corpus go to modelled_stream
         if corp:
             tmp = lib.VERIF + '/evidence/.corpus-%s.txt' % ctx.prop
             os.makedirs(lib.VERIF + '/evidence', exist_ok=True)
@@ -410,6 +410,9 @@ def run(ctx):
         if modelled_lines:
             modelled_stream(ctx, modelled_lines)
     else:
+        corp_modelled = [l for l in lib.corpus_lines(ctx.prop) if not l.startswith('x ')]
+        if corp_modelled:
+            modelled_stream(ctx, corp_modelled)
         modelled_stream(ctx)
     stream(ctx)
     ctx.extra['explanation'] = ('level "other": the kernel-checked part covers totality of the modelled parsers and engine-level confinement; '
